@@ -739,3 +739,7 @@ def r2c(cx):
                      'directory scan of a pattern component does not: with `ln -s /nonexistent d/link`, `echo */lin*` prints d/link but '
                      '`echo */link` prints */link - an existing matching pathname is omitted, depending on how the same name is spelled',
                      loc=fb.loc(t))
+
+
+# --- explanation addendum (generated catalogue in DESIGN.md reads RS.explanation)
+RS.explanation += ' Added later: when components remain the search always descends (R2b); the existence test of a literal component does not follow a final symbolic link, like the directory scan (R2c).'
